@@ -1567,6 +1567,23 @@ def reconfP : Params Nat Nat Nat Nat :=
 
 def reconfSt : St Nat Nat := { conf := { cb := .disc 0 7, minSteps := 1, maxSteps := 3, dt := 1 }, gen := 0, cache := .disc 0 7 }
 
+/-- the toy draw functions meet the contracts (the hypothesis `DrawOK` of the history theorem is satisfiable) -/
+example : DrawOK (· ≤ ·) reconfP := by
+  refine ⟨?_, ?_⟩
+  · intro b g hb
+    cases b with
+    | real lo hi =>
+      refine ⟨hb.1, ?_⟩
+      intro i l h x hl hh hx
+      have : h = x := by
+        have : hi[i]? = some x := hx
+        rw [hh] at this; exact Option.some.inj this
+      subst this
+      exact ⟨hb.2 i l h hl hh, Nat.le_refl _⟩
+    | disc lo hi => exact ⟨hb, Int.le_refl _⟩
+  · intro a b g h
+    exact ⟨h, Nat.le_refl _⟩
+
 def showOut : Out Nat Nat → Option (Int × Nat × Nat)
   | .ctl (.disc v) => some (v, 0, 0)
   | .steps k => some (0, k, 0)
